@@ -1813,7 +1813,50 @@ fn run_c14_writers(rng: &mut Rng, out: &mut Out, thorough: bool) {
 
 // ---------------------------------------------------------------- C19
 
+// the fully enabled vector against the bits themselves (same_answers only compares two values of the library):
+// select / select_zero at the sampled ranks and at every multiple of 1000 (so that every superblock is entered at
+// an offset other than 0), rank at the sampled positions
+fn true_answers(full: &BitVector, bits: &[bool]) -> bool {
+    let ones: Vec<usize> = (0..bits.len()).filter(|i| bits[*i]).collect();
+    let zeros: Vec<usize> = (0..bits.len()).filter(|i| !bits[*i]).collect();
+    let mut ok = full.len() == bits.len() && full.count_ones() == ones.len();
+    let sample = |n: usize| -> Vec<usize> {
+        let mut v = positions(n);
+        v.extend((0..n).step_by(1000).map(|r| r + 7).filter(|r| *r < n));
+        v
+    };
+    for r in sample(ones.len()) {
+        ok &= matches!(catch(|| full.select(r)), Res::Ok(Some(x)) if x == ones[r]);
+    }
+    for r in sample(zeros.len()) {
+        ok &= matches!(catch(|| full.select_zero(r)), Res::Ok(Some(x)) if x == zeros[r]);
+    }
+    for p in positions(bits.len()) {
+        ok &= matches!(catch(|| full.rank(p)), Res::Ok(x) if x == ones.partition_point(|y| *y < p));
+    }
+    ok
+}
+
 fn emit_supp(out: &mut Out, rng: &mut Rng, bits: &[bool], subset: u64, kind: &str) {
+    let mut rng2 = rng.clone();
+    rng.next();
+    let r = catch(|| {
+        let mut tmp = Out::collector("C19");
+        emit_supp_inner(&mut tmp, &mut rng2, bits, subset, kind);
+        tmp
+    });
+    match r {
+        Res::Ok(tmp) => out.absorb(tmp),
+        Res::Panic(k, msg) => {
+            let (_, words) = raw_from_bits(bits);
+            out.case("crash", format!("CCrash {} {} {}", bits.len(), nlist(&words), k),
+                format!("{{\"len\":{},\"kind\":\"{}\",\"subset\":{},\"panic\":{:?},\"words\":{:?}}}", bits.len(), kind, subset, msg,
+                    if words.len() <= 64 { words.clone() } else { words[..64].to_vec() }), true);
+        }
+    }
+}
+
+fn emit_supp_inner(out: &mut Out, rng: &mut Rng, bits: &[bool], subset: u64, kind: &str) {
     let (raw, words) = raw_from_bits(bits);
     let base = BitVector::from(raw);
     let mut full = base.clone();
@@ -1827,7 +1870,7 @@ fn emit_supp(out: &mut Out, rng: &mut Rng, bits: &[bool], subset: u64, kind: &st
     for op in order.iter() {
         enable_subset(&mut bs, 1 << op);
     }
-    let mut answers = same_answers(&bs, &full);
+    let mut answers = same_answers(&bs, &full) && true_answers(&full, bits);
     let bytes_s = serialize_elems(&bs);
     let mut cur = BitVector::load(&mut &from_elems(&bytes_s)[..]).unwrap();
     let flags = flags_of(&cur);
@@ -1976,6 +2019,34 @@ fn run_c19(rng: &mut Rng, out: &mut Out, thorough: bool) {
         for subset in [0u64, 3, 5, 6] {
             emit_supp(out, rng, &bits, subset, "long");
         }
+    }
+    // a long superblock that is not the first thing in its structure: 4096+ densely packed ones (a short superblock)
+    // followed by a few ones spread over more than bit_len(len)^4 positions; the same for the unset bits; and
+    // (thorough) two long superblocks in a row
+    for dense in [true, false] {
+        let len = 89000 + rng.below(3000) as usize;
+        let mut bits = vec![!dense; len];
+        let head = 4100 + rng.below(300) as usize;
+        for i in 0..head {
+            bits[i] = dense;
+        }
+        for _ in 0..60 {
+            bits[rng.below(head as u64) as usize] = !dense;
+        }
+        for _ in 0..(3 + rng.below(30)) {
+            bits[head + rng.below((len - head) as u64) as usize] = dense;
+        }
+        for subset in [2u64, 4, 7] {
+            emit_supp(out, rng, &bits, subset, "long_after_short");
+        }
+    }
+    if thorough || std::env::var("VERIF_ESCALATED").is_ok() {
+        let len = 240000 + rng.below(20000) as usize;
+        let mut bits = vec![false; len];
+        for _ in 0..9500 {
+            bits[rng.below(len as u64) as usize] = true;
+        }
+        emit_supp(out, rng, &bits, 2, "long_long");
     }
     // skip_option over optionals of every kind, followed by a sentinel and some more elements
     for _ in 0..(if thorough { 2000 } else { 400 }) {
